@@ -7,7 +7,7 @@ import rf_model as m
 from common import Ctx, Failure, corpus_cases
 
 COQ_TARGETS = ["props/P_C06.vo", "corr/Corr_RF.vo"]
-PROOF_FILES = ["proofs/Identity_proofs.v", "proofs/ResourceFn_proofs.v"]
+PROOF_FILES = ["proofs/Identity_proofs.v", "proofs/ResourceFn_proofs.v", "proofs/RfFaults_proofs.v"]
 RULE = ("adversarial scenarios: every subset of {apiVersion, kind, metadata, metadata.name, metadata.namespace} set at "
         "every layer (inline resource / ResourceTemplate, each inline overlay, each overlayRef function, create.overlay) "
         "with every value kind (other string, number, list, map, null; metadata replaced by a non-map), create passes and "
